@@ -132,6 +132,7 @@ def materialise(inst):
     if inst['kind'] == 'gp':
         m['F'] = gen.M(inst['F'])
         m['g'] = gen.V(inst['g'])
+        m['K'] = list(inst['K'])        # caller-owned, part of the argument image
     return m
 
 
